@@ -485,7 +485,7 @@ def run_reader_history(sc, paths, scratch, history):
     with warnings.catch_warnings(record=True) as wlog:
         warnings.simplefilter("always")
         g, stream = make_reader(sc, paths, obs)
-        held = None
+        held = []                          # every exception the consumer caught and still holds
         try:
             for a in history:
                 out = "none"
@@ -498,7 +498,7 @@ def run_reader_history(sc, paths, scratch, history):
                     except StopIteration:
                         out = "stopped"
                     except Exception as e:          # noqa — whatever the library lets through
-                        held = e
+                        held.append(e)
                         out = "raised"
                 elif a == "close":
                     g.close()
@@ -511,14 +511,14 @@ def run_reader_history(sc, paths, scratch, history):
                     except StopIteration:
                         out = "stopped"
                     except Exception as e:          # noqa
-                        held = e
+                        held.append(e)
                         out = "raised"
                 elif a == "releaseExc":
-                    held = None
+                    held.clear()
                 states.append({"out": out, "fds": obs.fds(),
                                "callerClosed": [0] if (stream is not None and stream.closed) else []})
         finally:
-            held = None
+            held.clear()
             g = None
             if stream is not None:
                 stream.close()
